@@ -244,8 +244,35 @@ def gen_model(rng, tier="quick", ints=None, missing=None, ncmds=None, ops=ALL_OP
         elif rng.random() < 0.3:
             args["DataType"] = "Float"
         cmds.append({"name": name, "cmd": "EEMSRead", "args": args})
-        env[name] = eems.read_column(c)
+        env[name] = eems.read_column(c, args)
         nf.append(name)
+    # the same column read again with other options (another missing value, none at all, another element type)
+    for j in range(len(cmds), len(cmds) + rng.choice([0, 0, 0, 1, 2])):
+        c = cols[rng.choice(read_cols)]
+        args = {"InFileName": "in.csv" if rel else table["path"], "InFieldName": c["name"]}
+        r = rng.random()
+        valid = [v for v in c["values"] if v != c["missing"]]
+        if r < 0.4 and valid:
+            args["MissingVal"] = rng.choice(valid)            # a value that really occurs becomes the missing value
+        elif r < 0.6 and c["missing"] is not None:
+            args["MissingVal"] = c["missing"]
+        integral = all(float(v) == int(v) for v in c["values"])
+        if integral and rng.random() < 0.5:
+            args["DataType"] = "Integer"
+        elif rng.random() < 0.3:
+            args["DataType"] = "Float"
+        name = "r%d" % j
+        try:
+            res = eems.read_column(c, args)
+        except eems.Precondition:
+            continue
+        if len(set(v for v in res.vals if v is not None)) < 1:
+            continue
+        cmds.append({"name": name, "cmd": "EEMSRead", "args": args})
+        env[name] = res
+        nf.append(name)
+        if "MissingVal" in args and isinstance(args["MissingVal"], float) and "e" in repr(args["MissingVal"]):
+            args["MissingVal"] = int(args["MissingVal"]) if args["MissingVal"] == int(args["MissingVal"]) else 0.5
     if ncmds is None:
         hi = 10 if tier == "quick" else 25
         ncmds = rng.choice([rng.randint(2, 5), rng.randint(2, hi), rng.randint(3, hi)])
